@@ -26,7 +26,22 @@ def run(ctx, replay=None):
             if key.startswith("capacity") or key.startswith("alloc"):
                 ctx.classify(key, "C03 oracle: " + note, {"case": c, "note": note})
     dis = sc.compare_in_coq(ctx, cases)
+    # the same question inside the transmit/receive windows (C06's window-granular histories: a
+    # request abandoned or timing out while the other side is inside its buffer): is every slot
+    # allocatable again once all handles are gone?  Only the capacity notes are C03's business here.
+    wcases = sc.run_histories(ctx, "c06", n // 2, depth)
+    wnotes = 0
+    for c in wcases or []:
+        for note in c["oracle"]:
+            key = note.split(":")[0]
+            if key.startswith("capacity") or key.startswith("alloc"):
+                wnotes += 1
+                # a request that went away while TX held its frame: the known tx-window defect (C06),
+                # which loses the slot; anything else that loses or duplicates a slot is new
+                tx = any(w.split(":")[0].endswith("-tx") for w in c["windows"])
+                ctx.classify("tx-window-slot-lost" if tx and key in ("capacity-lost", "alloc-live-slot", "capacity-exceeded") else key,
+                             "C03 oracle (window-granular history): " + note, {"case": c, "note": note})
     ctx.coverage.update(evaluations=len(cases), distinct_nontrivial=len(distinct),
                         rule="one evaluation = one operation history over 1..4 slots (alloc, pushes, mark, drops, TX ok/partial/error, genuine/duplicate/garbage responses, polls with virtual-time deadlines and retries) followed by the drain-and-reallocate probe; distinct by op list",
-                        op_distribution=opk, disagreements_checked=dis,
+                        op_distribution=opk, disagreements_checked=dis, window_histories=len(wcases or []),
                         samples=[{"n": cases[0]["n"], "cap": cases[0]["cap"], "ops": cases[0]["ops"][:8]}])
